@@ -172,7 +172,7 @@ func TestC02(t *testing.T) {
 		maxN, maxRF = 6, 5
 		tokenlessMaxN = 5
 	}
-	rep.Bound = fmt.Sprintf("rings of 1..%d instances (one token each at i*1000; for rings of up to %d instances also every proper subset of them registered WITHOUT tokens), every health-class vector over {ACTIVE at the timeout boundary, ACTIVE stale, LEAVING, PENDING, JOINING}, zone-aware: every zone assignment up to renaming with <=5 zones (every instance zoned), non-zone-aware: no zones; RF 1..%d; every start position (key just before each token)", maxN, tokenlessMaxN, maxRF)
+	rep.Bound = fmt.Sprintf("rings of 1..%d instances (one token each at i*1000; for rings of up to %d instances also every proper subset of them registered WITHOUT tokens), every health-class vector over {ACTIVE at the timeout boundary, ACTIVE stale, LEAVING, PENDING, JOINING}, zone-aware: every zone assignment up to renaming with <=5 zones (every instance zoned), non-zone-aware: no zones; RF 1..%d; every start position (key just before each token); zone-aware rings are installed on top of a zone-relabelled version of themselves (same tokens)", maxN, tokenlessMaxN, maxRF)
 	rep.Rule = "for each (ring, key, RF, zone-awareness) where real Get(key,Write) and real GetReplicationSetForOperation(Read) both succeed: every subset of the write set of size len-MaxErrors × every minimal answering read set (size len-MaxErrors, or all instances of #zones-MaxUnavailableZones zones) must intersect; distinct_nontrivial = distinct (write set, write MaxErrors, read set, read tolerance) combinations with tolerance > 0 on at least one side"
 	rep.Assumptions = []string{"success criteria of the executors (DoBatch: len-MaxErrors acks per key; DoUntilQuorum: len-MaxErrors results or all instances of zones-MaxUnavailableZones zones) are those checked against the real executors by C10 and C11"}
 	deadline := ev.Deadline(10 * time.Minute)
@@ -214,6 +214,26 @@ func TestC02(t *testing.T) {
 				rep.State(1)
 				for rf := 1; rf <= maxRF; rf++ {
 					r := rs.get(rf, za)
+					if za {
+						// the client first sees the same instances with the same tokens in other zones (every instance moved
+						// to the zone of its successor): whatever the client keeps from that must not leak into the answers
+						pre := c.desc(now)
+						ids := make([]string, 0, len(pre.Ingesters))
+						for id := range pre.Ingesters {
+							ids = append(ids, id)
+						}
+						sort.Strings(ids)
+						zs := make([]string, len(ids))
+						for i, id := range ids {
+							zs[i] = pre.Ingesters[id].Zone
+						}
+						for i, id := range ids {
+							in := pre.Ingesters[id]
+							in.Zone = zs[(i+1)%len(ids)]
+							pre.Ingesters[id] = in
+						}
+						r.VerifUpdateRingState(pre)
+					}
 					r.VerifUpdateRingState(c.desc(now))
 					read, rerr := r.GetReplicationSetForOperation(ring.Read)
 					rep.Eval(1)
